@@ -13,6 +13,24 @@
 
 #define NSLOT 4
 typedef struct { unsigned char *b; size_t len, cap; } mstr_t;
+/* positions and counts can be given symbolically (flag argument == 1) and are then resolved against the length the object has
+   when the operation runs: the generator's own idea of that length drifts after trims, splices and failed reads */
+static long long sym_pos(long code, long long L)
+{
+    switch (code % 12) {
+    case 0: return -L - 2; case 1: return -L - 1; case 2: return -L; case 3: return -1; case 4: return 0; case 5: return 1;
+    case 6: return L / 2; case 7: return L - 1; case 8: return L; case 9: return L + 1; case 10: return L ? (code / 12) % L : 0; default: return 2000000000LL;
+    }
+}
+static long long sym_cnt(long code, long long L, long long idx)
+{
+    long long at = idx < 0 ? idx + L : idx, rest = L - at;
+    switch (code % 10) {
+    case 0: return 0; case 1: return 1; case 2: return rest; case 3: return rest + 1; case 4: return rest - 1; case 5: return -1;
+    case 6: return -rest; case 7: return (code / 10) % 5; case 8: return rest > 0 ? (code / 10) % (rest + 1) : 0; default: return 2000000000LL;
+    }
+}
+
 static void *objs[NSLOT];
 static mstr_t mod[NSLOT];
 static long long exp_size = -1;
@@ -72,7 +90,7 @@ static size_t gen_text(rng_t *r, unsigned char *buf, size_t max, int regime)
     static const char alpha[] = "abcXYZ mn0189-_.\t q~";
     size_t n;
     switch (regime) {
-    case 1: { static const int b[] = { 4094, 4095, 4096, 4097, 8191, 8192, 8193 }; n = (size_t)b[rng_below(r, 7)]; break; }
+    case 1: { static const int b[] = { 4094, 4095, 4096, 4097, 8191, 8192, 8193, 8189, 8190, 12284, 12285 }; n = (size_t)b[rng_below(r, 11)]; break; }      /* read() chunks are 4096 bytes, fgets() chunks 4095 */
     case 2: n = (size_t)rng_range(r, 4098, 16000); break;
     default: { int k = (int)rng_below(r, 10); n = k < 2 ? 0 : k < 4 ? 1 : k < 8 ? (size_t)rng_range(r, 2, 16) : (size_t)rng_range(r, 17, 120); break; }
     }
@@ -217,7 +235,7 @@ static void gen(plan_t *p, rng_t *r)
             plan_op(p, 0, rng_chance(r, 1, 2) ? "append" : "prepend", 2, (long)s, (long)os);
             if (os >= 0 && gexists[os]) glen[s] += glen[os];
         } else if (k < 24) {
-            plan_op(p, 0, rng_chance(r, 1, 2) ? "append_char" : "prepend_char", 2, (long)s, (long)(rng_chance(r, 1, 8) ? " \t"[rng_below(r, 2)] : 33 + rng_below(r, 90)));
+            plan_op(p, 0, rng_chance(r, 1, 2) ? "append_char" : "prepend_char", 2, (long)s, (long)(rng_chance(r, 1, 8) ? " \t"[rng_below(r, 2)] : rng_chance(r, 1, 8) ? 128 + rng_below(r, 128) : 33 + rng_below(r, 90)));
             glen[s]++;
         } else if (k < 34) {
             o = plan_op(p, 0, rng_chance(r, 1, 2) ? "append_ptr" : "prepend_ptr", 1, (long)s);
@@ -228,35 +246,51 @@ static void gen(plan_t *p, rng_t *r)
         else if (k < 50) plan_op(p, 0, "trim", 1, (long)s);
         else if (k < 58) {
             long idx = gen_index(r, glen[s]), cnt = rng_chance(r, 1, 2) ? (long)rng_below(r, 4) : gen_index(r, glen[s]);
+            int symb = rng_chance(r, 1, 2);            /* position and count as classes relative to the real length */
+            if (symb) { idx = (long)rng_below(r, 12) + 12 * (long)rng_below(r, 5000); cnt = (long)rng_below(r, 10) + 10 * (long)rng_below(r, 5000); }
             if (rng_chance(r, 1, 2)) {
                 int os = pick_live(r);
                 if (os == s && !rng_chance(r, 1, 3)) os = -1;
-                plan_op(p, 0, "splice", 4, (long)s, idx, cnt, (long)os);
+                plan_op(p, 0, "splice", 5, (long)s, idx, cnt, (long)os, (long)symb);
             } else {
-                o = plan_op(p, 0, "splice_ptr", 3, (long)s, idx, cnt);
+                o = plan_op(p, 0, "splice_ptr", 5, (long)s, idx, cnt, 0L, (long)symb);
                 if (!rng_chance(r, 1, 8)) { n = gen_text(r, buf, sizeof(buf), 0); op_str(o, buf, n); }
             }
         } else if (k < 62) {
             o = plan_op(p, 0, "sprintf", 3, (long)s, (long)rng_below(r, 6), (long)(int)rng_u64(r));
-            n = gen_text(r, buf, 60, 0);
+            n = rng_chance(r, 1, 6) ? gen_text(r, buf, 15000, rng_range(r, 1, 2)) : gen_text(r, buf, 60, 0);       /* one in six formats several kilobytes */
             for (size_t j = 0; j < n; j++) if (buf[j] == '%') buf[j] = 'p';
             op_str(o, buf, n);
             glen[s] = n + 4;
         } else if (k < 66) { plan_op(p, 0, "done", 1, (long)s); gdone[s] = 1; glen[s] = 0; }
         else if (k < 69) { plan_op(p, 0, "del", 1, (long)s); gexists[s] = 0; glen[s] = 0; }
-        else if (k < 74) plan_op(p, 0, rng_chance(r, 1, 2) ? "index" : "rindex", 2, (long)s, (long)(rng_chance(r, 1, 3) ? 'a' + rng_below(r, 4) : 33 + rng_below(r, 90)));
+        else if (k < 74) plan_op(p, 0, rng_chance(r, 1, 2) ? "index" : "rindex", 2, (long)s, (long)(rng_chance(r, 1, 3) ? 'a' + rng_below(r, 4) : rng_chance(r, 1, 8) ? 128 + rng_below(r, 128) : rng_chance(r, 1, 8) ? " \t"[rng_below(r, 2)] : 33 + rng_below(r, 90)));
         else if (k < 79) {
             if (rng_chance(r, 1, 2)) plan_op(p, 0, "find", 2, (long)s, (long)(rng_chance(r, 1, 10) ? -1 : pick_live(r)));
+            else if (rng_chance(r, 1, 2)) { o = plan_op(p, 0, "find_ptr", 2, (long)s, (long)(1 + rng_below(r, 7)) + 8 * (long)rng_below(r, 5000)); op_str(o, "x", 1); }      /* needle derived from the text */
             else { o = plan_op(p, 0, "find_ptr", 1, (long)s); if (!rng_chance(r, 1, 15)) { n = gen_text(r, buf, 6, 0); op_str(o, buf, n); } }
-        } else if (k < 85) plan_op(p, 0, rng_chance(r, 1, 2) ? "substr" : "substr_ptr", 3, (long)s, gen_index(r, glen[s]), rng_chance(r, 1, 2) ? (long)rng_below(r, 5) - 1 : gen_index(r, glen[s]));
+        } else if (k < 85) { if (rng_chance(r, 1, 2)) plan_op(p, 0, rng_chance(r, 1, 2) ? "substr" : "substr_ptr", 4, (long)s, (long)rng_below(r, 12) + 12 * (long)rng_below(r, 5000), (long)rng_below(r, 10) + 10 * (long)rng_below(r, 5000), 1L);
+          else plan_op(p, 0, rng_chance(r, 1, 2) ? "substr" : "substr_ptr", 3, (long)s, gen_index(r, glen[s]), rng_chance(r, 1, 2) ? (long)rng_below(r, 5) - 1 : gen_index(r, glen[s])); }
         else if (k < 91) {
             long nn = rng_chance(r, 1, 2) ? (long)rng_below(r, 6) : (long)rng_below(r, (uint32_t)glen[s] + 3);
-            if (rng_chance(r, 1, 2)) plan_op(p, 0, "cmp", 4, (long)s, (long)(rng_chance(r, 1, 10) ? -1 : pick_live(r)), (long)rng_below(r, 4), nn);
+            if (rng_chance(r, 1, 4)) {
+                /* a copy, made slightly different, compared in every way with counts around the length */
+                int d = pick_free(r);
+                if (d >= 0) {
+                    plan_op(p, 0, "dup", 2, (long)s, (long)d);
+                    if (rng_chance(r, 1, 2)) plan_op(p, 0, "append_char", 2, (long)d, (long)('a' + rng_below(r, 26)));
+                    else if (rng_chance(r, 1, 2)) plan_op(p, 0, rng_chance(r, 1, 2) ? "upcase" : "downcase", 1, (long)d);
+                    for (int v = 0; v < 4; v++) { plan_op(p, 0, "cmp", 6, (long)s, (long)d, (long)v, (long)rng_below(r, 5), 0L, 1L); plan_op(p, 0, "cmp", 6, (long)d, (long)s, (long)v, (long)rng_below(r, 5), 0L, 1L); }
+                    plan_op(p, 0, "del", 1, (long)d);
+                }
+            } else if (rng_chance(r, 1, 6)) plan_op(p, 0, "cmp", 5, (long)s, (long)pick_live(r), 0L, 0L, 2L);      /* comp(): the object-level comparison */
+            else if (rng_chance(r, 1, 2)) plan_op(p, 0, "cmp", 4, (long)s, (long)(rng_chance(r, 1, 10) ? -1 : pick_live(r)), (long)rng_below(r, 4), nn);
+            else if (rng_chance(r, 1, 2)) { o = plan_op(p, 0, "cmp_ptr", 6, (long)s, (long)rng_below(r, 5000), (long)rng_below(r, 4), (long)rng_below(r, 5), (long)(1 + rng_below(r, 7)), 1L); op_str(o, "x", 1); }   /* argument derived from the text */
             else { o = plan_op(p, 0, "cmp_ptr", 4, (long)s, 0L, (long)rng_below(r, 4), nn); if (!rng_chance(r, 1, 10)) { n = gen_text(r, buf, 40, 0); op_str(o, buf, n); } }
         } else if (k < 94) { static const int bases[] = { 0, 8, 10, 16, 2, 36 }; plan_op(p, 0, "to_num", 2, (long)s, (long)bases[rng_below(r, 6)]); }
         else if (k < 95) plan_op(p, 0, "to_float", 1, (long)s);
         else if (k < 98) { int d = pick_free(r); if (d >= 0) { plan_op(p, 0, "dup", 2, (long)s, (long)d); gexists[d] = 1; glen[d] = glen[s]; gdone[d] = 0; } }
-        else plan_op(p, 0, "show", 1, (long)s);
+        else plan_op(p, 0, rng_chance(r, 1, 2) ? "show" : "type", 1, (long)s);
     }
 }
 
